@@ -105,6 +105,12 @@ def do(kind, obj, op):
     elif o == 'setbytype':
         ts = make('ch').componentType[i].asn1Object.tagSet if 0 <= i < 3 else univ.Null.tagSet
         obj.setComponentByType(ts, v)
+    elif o == 'setbad':
+        obj.setComponentByPosition(i, 'not a number')
+    elif o == 'setbadobj':
+        obj.setComponentByPosition(i, univ.OctetString('tag-incompatible'))
+    elif o == 'appendbad':
+        obj.append('not a number')
     elif o == 'append':
         obj.append(v)
     elif o == 'extend':
@@ -186,6 +192,7 @@ def run_history(job):
 def alphabet(kind):
     if kind == 'so':
         ops = [('set', i, 1) for i in (-1, 0, 1, 2, 3)] + [('setitem', i, 2) for i in (0, 1, 2)]
+        ops += [('setbad', 0, 0), ('setbadobj', 0, 0), ('appendbad', 0, 0)]
         ops += [('append', 0, 1), ('append', 0, 2), ('extend', 0, 1), ('clear', 0, 0), ('reset', 0, 0), ('sort', 0, 0),
                 ('reverse', 0, 0), ('len', 0, 0)]
         ops += [('getitem', i, 0) for i in (-1, 0, 1, 2)] + [('peek', i, 0) for i in (0, 1, 2)]
@@ -194,12 +201,14 @@ def alphabet(kind):
         return ops
     if kind == 'ch':
         ops = [('set', i, 1) for i in (0, 1, 2, 3)] + [('setitem', 1, 2), ('setbyname', 0, 2), ('setbyname', 3, 2),
-                                                       ('setbytype', 2, 1), ('setbytype', 3, 1)]
+                                                       ('setbytype', 2, 1), ('setbytype', 3, 1), ('setbad', 1, 0),
+                                                       ('setbadobj', 0, 0)]
         ops += [('getitem', i, 0) for i in (0, 1, 3)] + [('peek', i, 0) for i in (0, 1)] + [('getbyname', 2, 0), ('getbyname', 3, 0)]
         ops += [('getName', 0, 0), ('getComponent', 0, 0), ('len', 0, 0), ('contains', 0, 0), ('contains', 1, 0), ('iter', 0, 0),
                 ('clear', 0, 0), ('prettyPrint', 0, 0), ('eq', 0, 0), ('encode', 0, 0), ('clone', 0, 0), ('cloneschema', 0, 0)]
         return ops
-    ops = [('set', i, 1) for i in (0, 1, 2, 3)] + [('setitem', 1, 2), ('setbyname', 0, 2), ('setbyname', 2, 2), ('setbyname', 3, 2)]
+    ops = [('set', i, 1) for i in (0, 1, 2, 3)] + [('setitem', 1, 2), ('setbyname', 0, 2), ('setbyname', 2, 2), ('setbyname', 3, 2),
+                                                   ('setbad', 0, 0), ('setbadobj', 1, 0)]
     ops += [('getitem', i, 0) for i in (0, 1, 2, 3)] + [('getbyname', 1, 0), ('getbyname', 3, 0)]
     ops += [('peek', i, 0) for i in (0, 1, 2)] + [('peekbyname', 1, 0), ('peekbyname', 3, 0)]
     ops += [('len', 0, 0), ('contains', 0, 0), ('contains', 3, 0), ('iter', 0, 0), ('keys', 0, 0), ('clear', 0, 0), ('reset', 0, 0),
